@@ -55,9 +55,129 @@ func runC23(c *core.Ctx) {
 			return 0
 		}
 	}
-	saveVia := func(fn *ssa.Function, acc ssa.Value) viaPred {
+	// helperArg: the call hands the account to a function of the package; the function and the parameter that
+	// stands for the account there. The rules below follow the account one or two levels into such helpers:
+	// what is demanded of a path of the caller is demanded of the helper's own paths.
+	helperArg := func(cc *ssa.CallCommon, acc ssa.Value, in *ssa.Function) (*ssa.Function, ssa.Value) {
+		h := cc.StaticCallee()
+		if h == nil || h.Blocks == nil || h.Pkg != in.Pkg || h == in {
+			return nil, nil
+		}
+		for i, a := range cc.Args {
+			if core.Strip(a) == acc && i < len(h.Params) {
+				return h, h.Params[i]
+			}
+		}
+		return nil, nil
+	}
+	// nonceCount: how often the instruction increases the account's nonce (a helper: the most any of its success paths does)
+	var nonceCount func(fn *ssa.Function, acc ssa.Value, depth int) func(in ssa.Instruction) int
+	nonceCount = func(fn *ssa.Function, acc ssa.Value, depth int) func(in ssa.Instruction) int {
+		direct := nonceEv(acc)
+		return func(in ssa.Instruction) int {
+			if direct(in) == 1 {
+				return 1
+			}
+			cc := core.CallOf(in)
+			if cc == nil || depth >= 2 {
+				return 0
+			}
+			h, p := helperArg(cc, acc, fn)
+			if h == nil {
+				return 0
+			}
+			max := 0
+			for _, cnt := range core.CountEvents(h, nonceCount(h, p, depth+1), core.SuccessReturn) {
+				if cnt.Max > max {
+					max = cnt.Max
+				}
+			}
+			return max
+		}
+	}
+	// nonceMust: the instruction increases the nonce of a non-nil account whenever control goes on to success
+	var nonceMust func(fn *ssa.Function, acc ssa.Value, depth int) func(in ssa.Instruction) bool
+	nonceMust = func(fn *ssa.Function, acc ssa.Value, depth int) func(in ssa.Instruction) bool {
+		direct := nonceEv(acc)
+		return func(in ssa.Instruction) bool {
+			if direct(in) == 1 {
+				return true
+			}
+			cc := core.CallOf(in)
+			if cc == nil || depth >= 2 {
+				return false
+			}
+			h, p := helperArg(cc, acc, fn)
+			if h == nil || nonceCount(fn, acc, depth)(in) == 0 {
+				return false
+			}
+			esc, _ := core.PathQ{Fn: h, Via: nonceMust(h, p, depth+1), Prune: nilAcc(p), Target: core.SuccessReturn}.Escape()
+			if esc == nil {
+				c.Analysed(fname(h))
+			}
+			return esc == nil
+		}
+	}
+	// nonceSites: the IncreaseNonce calls on the account, in the function and in the helpers it hands the account to
+	var nonceSites func(fn *ssa.Function, acc ssa.Value, depth int) []ssa.Instruction
+	nonceSites = func(fn *ssa.Function, acc ssa.Value, depth int) (out []ssa.Instruction) {
+		core.Instrs(fn, func(in ssa.Instruction) {
+			if nonceEv(acc)(in) == 1 {
+				out = append(out, in)
+			} else if cc := core.CallOf(in); cc != nil && depth < 2 {
+				if h, p := helperArg(cc, acc, fn); h != nil {
+					out = append(out, nonceSites(h, p, depth+1)...)
+				}
+			}
+		})
+		return out
+	}
+	var saveVia func(fn *ssa.Function, acc ssa.Value) viaPred
+	var mutates func(fn *ssa.Function, cc *ssa.CallCommon, acc ssa.Value, depth int) bool
+	mutates = func(fn *ssa.Function, cc *ssa.CallCommon, acc ssa.Value, depth int) bool {
+		if isMut(cc, acc) {
+			return true
+		}
+		if depth >= 2 {
+			return false
+		}
+		h, p := helperArg(cc, acc, fn)
+		if h == nil {
+			return false
+		}
+		return len(core.CallsIn(h, func(in ssa.Instruction, hc *ssa.CallCommon) bool { return mutates(h, hc, p, depth+1) })) > 0
+	}
+	// savesSummary: every success path of the helper with a non-nil account passes a checked SaveAccount of it
+	savesSummary := map[*ssa.Function]map[ssa.Value]int{}
+	saves := func(h *ssa.Function, p ssa.Value) bool {
+		if savesSummary[h] == nil {
+			savesSummary[h] = map[ssa.Value]int{}
+		}
+		if v := savesSummary[h][p]; v != 0 {
+			return v == 1
+		}
+		savesSummary[h][p] = 2 // recursion guard: assume not
+		cv := core.NewCheckedVia(h, saveVia(h, p))
+		ok := len(cv.Calls) > 0 && len(cv.Unhandled) == 0
+		if ok {
+			esc, _ := core.PathQ{Fn: h, Via: cv.Via, ViaEdge: cv.ViaEdge, Prune: nilAcc(p), Target: cv.WrapTarget(core.NilReturn)}.Escape()
+			ok = esc == nil
+		}
+		if ok {
+			savesSummary[h][p] = 1
+			c.Analysed(fname(h))
+		}
+		return ok
+	}
+	saveVia = func(fn *ssa.Function, acc ssa.Value) viaPred {
 		return func(in ssa.Instruction, cc *ssa.CallCommon) bool {
-			return cc.IsInvoke() && cc.Method.Name() == "SaveAccount" && isRecvField(fn, cc.Value, "accounts") && core.Strip(cc.Args[0]) == acc
+			if cc.IsInvoke() && cc.Method.Name() == "SaveAccount" && isRecvField(fn, cc.Value, "accounts") && core.Strip(cc.Args[0]) == acc {
+				return true
+			}
+			if h, p := helperArg(cc, acc, fn); h != nil && core.ErrIndex(h.Signature) >= 0 {
+				return saves(h, p)
+			}
+			return false
 		}
 	}
 
@@ -65,9 +185,9 @@ func runC23(c *core.Ctx) {
 	if fn := anchorM(c, pkg, "txProcessor", "processMoveBalance"); fn != nil {
 		src, dst := ssa.Value(fn.Params[2]), ssa.Value(fn.Params[3])
 		// S1: exactly one IncreaseNonce(1) on src on success paths with a local sender; none without
-		counts := core.CountEvents(fn, nonceEv(src), core.NilReturn)
+		counts := core.CountEvents(fn, nonceCount(fn, src, 0), core.NilReturn)
 		// min over all paths includes the "sender not local" path (0); so evaluate the two cases by pruning in a path query
-		qNone := core.PathQ{Fn: fn, Via: func(in ssa.Instruction) bool { return nonceEv(src)(in) == 1 }, Prune: nilAcc(src), Target: core.NilReturn}
+		qNone := core.PathQ{Fn: fn, Via: nonceMust(fn, src, 0), Prune: nilAcc(src), Target: core.NilReturn}
 		esc, path := qNone.Escape()
 		c.Check(esc == nil, "C23/nonce-exactly-once", "processMoveBalance/at-least-once", fn.Pos(), "with a local sender every success path increases the sender nonce",
 			"a success path with a local sender does not increase the nonce: "+c.P.PathString(path))
@@ -79,7 +199,7 @@ func runC23(c *core.Ctx) {
 		}
 		c.Check(okMax && len(counts) > 0, "C23/nonce-exactly-once", "processMoveBalance/at-most-once", fn.Pos(), "no success path increases the sender nonce twice", "a success path increases the sender nonce more than once")
 		// constant 1
-		for _, in := range core.CallsIn(fn, func(in ssa.Instruction, cc *ssa.CallCommon) bool { return nonceEv(src)(in) == 1 }) {
+		for _, in := range nonceSites(fn, src, 0) {
 			n, ok := core.ConstInt(core.CallOf(in).Args[0])
 			c.Check(ok && n == 1, "C23/nonce-exactly-once", "processMoveBalance/step", in.Pos(), "IncreaseNonce(1)", "the nonce is not increased by the constant 1")
 		}
@@ -89,7 +209,7 @@ func runC23(c *core.Ctx) {
 			v    ssa.Value
 		}{{"sender", src}, {"receiver", dst}} {
 			muts := core.CallsIn(fn, func(in ssa.Instruction, cc *ssa.CallCommon) bool {
-				if isMut(cc, acc.v) {
+				if mutates(fn, cc, acc.v, 0) {
 					return true
 				}
 				// processTxFee debits the sender it is given
@@ -98,6 +218,13 @@ func runC23(c *core.Ctx) {
 			for i, m := range muts {
 				mustPassChecked(c, fn, "C23/mutated-account-saved", fmt.Sprintf("processMoveBalance/%s-mutation#%d(%s)", acc.name, i, core.CallDesc(core.CallOf(m)).Name), m,
 					saveVia(fn, acc.v), core.NilReturn, nilAcc(acc.v), "the mutated "+acc.name+" account is saved (error checked) before success")
+				// a helper that is taken as the save must save after its own mutations
+				if h, p := helperArg(core.CallOf(m), acc.v, fn); h != nil && core.ErrIndex(h.Signature) >= 0 && saves(h, p) {
+					for j, mi := range core.CallsIn(h, func(in ssa.Instruction, hc *ssa.CallCommon) bool { return mutates(h, hc, p, 1) }) {
+						mustPassChecked(c, h, "C23/mutated-account-saved", fmt.Sprintf("processMoveBalance/%s-mutation#%d(%s)/inner#%d(%s)", acc.name, i, h.Name(), j, core.CallDesc(core.CallOf(mi)).Name), mi,
+							saveVia(h, p), core.NilReturn, nilAcc(p), "the "+acc.name+" account mutated in the helper is saved (error checked) before the helper reports success")
+					}
+				}
 			}
 			if len(muts) == 0 {
 				c.Fail("C23/mutated-account-saved", "processMoveBalance/"+acc.name, fn.Pos(), "no mutation of the "+acc.name+" account found: anchor drift")
@@ -126,6 +253,12 @@ func runC23(c *core.Ctx) {
 			return cc.IsInvoke() && cc.Value == snd && cc.Method.Name() == "SubFromBalance"
 		}) {
 			debited[core.CallOf(in).Args[0]] = true
+			// one debit of an amount chosen before it (`fee := a; if cond { fee = b }`): either may be what was debited
+			if ph, isPhi := core.CallOf(in).Args[0].(*ssa.Phi); isPhi {
+				for _, e := range ph.Edges {
+					debited[e] = true
+				}
+			}
 		}
 		n, ok := 0, true
 		why := ""
